@@ -16,7 +16,7 @@ import random
 from cerberus import Validator, SchemaError, schema_registry, rules_set_registry
 from cerberus.schema import RulesSetRegistry, SchemaRegistry
 
-from .. import codec, real, cases, ports, schemas, rewrite
+from .. import codec, real, cases, ports, schemas, rewrite, families
 from ..lean import Driver
 from . import c01, c02
 
@@ -178,8 +178,12 @@ def recursive(ctx, drv):
     rules_set_registry.add('selflist', {'type': 'list', 'schema': {'type': 'dict', 'schema': {'y': 'selflist'}}})
     rules_set_registry.add('selfof', {'anyof': [{'type': 'integer'}, {'type': 'dict', 'schema': {'y': 'selfof'}}]})
     rules_set_registry.add('selfdeep', {'type': 'dict', 'schema': {'x': {'type': 'dict', 'schema': {'y': 'selfdeep'}}}})
+    # a rules set that refers to itself from two fields of one sub-schema (a binary tree)
+    rules_set_registry.add('bintree', {'type': 'dict', 'schema': {'value': {'type': 'integer'}, 'left': 'bintree', 'right': 'bintree'}})
     try:
-        more = [('selfmap', {'a': 'selfmap'}, {'a': {'x': {'x': {'n': 1}, 'n': 2}}}, True),
+        more = [('bintree', {'root': 'bintree'}, {'root': {'value': 1, 'left': {'value': 2, 'right': {'value': 3}}, 'right': {'value': 4}}}, True),
+                ('bintree', {'root': 'bintree'}, {'root': {'value': 1, 'left': {'value': 2, 'right': {'value': 'x'}}}}, False),
+                ('selfmap', {'a': 'selfmap'}, {'a': {'x': {'x': {'n': 1}, 'n': 2}}}, True),
                 ('selfmap', {'a': 'selfmap'}, {'a': {'x': {'x': {'n': 'bad'}}}}, False),
                 ('selfmap', {'a': {'type': 'dict', 'schema': {'b': 'selfmap'}}}, {'a': {'b': {'x': {'x': 3}}}}, False),
                 ('selflist', {'a': 'selflist'}, {'a': [{'y': []}, {'y': [{'y': []}]}]}, True),
@@ -220,6 +224,44 @@ def recursive(ctx, drv):
             if rep == 'schema_error' or 'accepted' not in rep:
                 ctx.port_mismatch('accept', {'schema': repr(sch)}, repr(rep)[:200], 'accepted', 'the model rejects a recursive definition')
             ctx.dist('recursive', name)
+
+        # a name that is a rules set and a schema at once is a rules set for the items of a list, in validation and in
+        # normalization alike; rules for unknown fields given by name make up for a missing schema like inline ones
+        rules_set_registry.add('both', {'type': 'integer', 'coerce': families.c_int})
+        schema_registry.add('both', {'k': {'type': 'string'}})
+        rules_set_registry.add('unk', {'type': 'integer', 'coerce': families.c_int})
+        pairs = [('a name in both registries below a list',
+                  lambda: Validator({'l': {'type': 'list', 'schema': 'both'}}),
+                  lambda: Validator({'l': {'type': 'list', 'schema': {'type': 'integer', 'coerce': families.c_int}}}),
+                  [{'l': ['1', 2]}, {'l': ['x']}, {'l': [{'k': 'v'}]}]),
+                 ('rules for unknown fields by name, no schema',
+                  lambda: Validator(allow_unknown='unk'), lambda: Validator(allow_unknown={'type': 'integer', 'coerce': families.c_int}),
+                  [{'a': '1'}, {'a': 'x', 'b': 2}, {}])]
+        for what, by_name, inline, docs in pairs:
+            for dd in docs:
+                outs = []
+                for mk in (by_name, inline):
+                    try:
+                        v = mk()
+                        r = v.validate(copy.deepcopy(dd))
+                        outs.append(('ok', r, codec.canon_errs(v._errors, 1), codec.canon_val(v.document)))
+                    except Exception as e:
+                        outs.append(('raised', type(e).__name__))
+                ctx.dist('recursive', what)
+                if outs[0] != outs[1]:
+                    ctx.fail('C14 oracle: %s: by reference %r, inline %r' % (what, outs[0][:3], outs[1][:3]), {'doc': repr(dd), 'case': what})
+        # known finding F37: `items` by self-reference on a one-character string (its own only item) does not terminate
+        rules_set_registry.add('chars', {'items': ['chars']})
+        for dd, want in (({'a': 'xy'}, False), ({'a': 5}, True), ({'a': ['p', 'q']}, False), ({'a': 'x'}, None), ({'a': ['x']}, None)):
+            try:
+                r = Validator({'a': 'chars'}).validate(copy.deepcopy(dd))
+                if want is not None and r != want:
+                    ctx.fail('C14 oracle: recursive definition \'chars\' gives %s, expected %s' % (r, want), {'doc': repr(dd)})
+            except RecursionError:
+                ctx.fail('C14 oracle: applying the recursive definition \'chars\' = {\'items\': [\'chars\']} to %r does not terminate' % (dd,),
+                         {'schema': "{'a': 'chars'}", 'doc': repr(dd)},
+                         classifier='self_reference_through_items_on_a_string' if want is None else None)
+            ctx.dist('recursive', 'chars')
 
         for depth in range(0, 7):
             doc = {'v': depth}
